@@ -18,6 +18,23 @@ static void* ovr_cpp_alloc(const char* ep, size_t n, size_t al) {
   } catch (const std::bad_alloc&) { return NULL; }
   return NULL;
 }
+/* how a form of operator new ends for a size that cannot be satisfied */
+static int ovr_cpp_try_new(const char* ep, size_t n, size_t al) {
+  std::align_val_t a = static_cast<std::align_val_t>(al);
+  void* p = NULL;
+  try {
+    if (ovr_streq(ep, "new")) p = ::operator new(n);
+    else if (ovr_streq(ep, "new_arr")) p = ::operator new[](n);
+    else if (ovr_streq(ep, "new_nothrow")) p = ::operator new(n, std::nothrow);
+    else if (ovr_streq(ep, "new_arr_nothrow")) p = ::operator new[](n, std::nothrow);
+    else if (ovr_streq(ep, "new_al")) p = ::operator new(n, a);
+    else if (ovr_streq(ep, "new_arr_al")) p = ::operator new[](n, a);
+    else if (ovr_streq(ep, "new_al_nothrow")) p = ::operator new(n, a, std::nothrow);
+    else if (ovr_streq(ep, "new_arr_al_nothrow")) p = ::operator new[](n, a, std::nothrow);
+    else return 14;
+  } catch (const std::bad_alloc&) { return 12; } catch (...) { return 13; }
+  return p == NULL ? 10 : 11;
+}
 static int ovr_cpp_release(const char* ep, void* p, size_t n, size_t al) {
   std::align_val_t a = static_cast<std::align_val_t>(al);
   if (ovr_streq(ep, "delete")) ::operator delete(p);
